@@ -27,7 +27,12 @@ inductive StatusText where
 structure Validator where
   id : Nat
   power : Nat
+  /-- counted by `GetBondedValidatorsByPower`: status Bonded AND present in the staking power index -/
   bonded : Bool
+  /-- `GetValidator(..).IsBonded()`: status Bonded.  The two staking views differ for a validator jailed earlier in the
+      block: `Jail` removes it from the power index at once, its status stays Bonded until the staking EndBlocker
+      applies the validator-set updates. -/
+  statusBonded : Bool
   deriving DecidableEq, Repr, Inhabited
 
 abbrev Group := Content × List Nat
@@ -68,7 +73,7 @@ def bondedVals (vals : List Validator) : List Validator := vals.filter (·.bonde
 /-- `checkActiveValidator`: `GetValidator` found and `IsBonded` -/
 def checkActive (vals : List Validator) (id : Nat) : Bool :=
   match vals.find? (fun v => v.id == id) with
-  | some v => v.bonded
+  | some v => v.statusBonded
   | none => false
 
 /-- `inWhiteList` -/
